@@ -710,9 +710,12 @@ fn signature_for(c: &CaseSpec, path: &str, e: &Entry, pre_existing: bool, imm_fa
                 }
             } else if let Some(rest) = path.strip_prefix("immutable/") {
                 if let Some(n) = is_trio_name(rest) {
-                    if n > c.last {
-                        // above the certified beacon: the sweep's own bound (0..=beacon, +1 only
-                        // when ancillary files are restored) excludes it
+                    if n > c.last + u64::from(c.include_ancillary) {
+                        // above the sweep's own bound (0..=beacon, +1 only when ancillary files are
+                        // restored): the pinned sweep removes it. (With ancillary files requested
+                        // the trio beacon+1 is inside the bound: an immutable archive entry written
+                        // there in place - possibly after the verified ancillary copy was moved in -
+                        // is the recorded unpack-in-place / sweep-bound finding.)
                         "C19 immutable file beyond the certified beacon kept"
                     } else {
                         "C19 immutable file outside the requested range kept"
